@@ -278,8 +278,10 @@ def call_impl(ctx, fn, f, a, b, path):
     return np.asarray(out, dtype=np.float64)
 
 
-def check_range(ctx, st, fn, path, out, a, b):
-    """finite and in [0,1] (search; no model involved)"""
+def check_range(ctx, st, fn, path, out, a, b, known_below=None):
+    """finite and in [0,1] (search; no model involved). `known_below` (CMYK path): the cases on which the
+    known mechanism can push C, M, Y below zero - the blended RGB exceeds 1 - K of the source; a value below
+    zero on any other case violates the clause that does hold (Props.C12.cmyk_range_partial)."""
     flat = out.reshape(out.shape[0], -1) if out.ndim > 1 else out.reshape(-1, 1)
     bad_nf = ~np.isfinite(flat).all(axis=1)
     lo = (flat < -RANGE_SLACK).any(axis=1)
@@ -289,12 +291,19 @@ def check_range(ctx, st, fn, path, out, a, b):
         o = max(float(-inside.min()), float(inside.max() - 1))
         if o > 0:
             st.up(st.overshoot, f"{fn}:{path}", o)
-    for mask, kind in ((bad_nf, "non-finite"), (lo, "below-0"), (hi, "above-1")):
+    checks = [(bad_nf, "non-finite", None), (hi, "above-1", None)]
+    if path == "cmyk" and known_below is not None:
+        checks += [(lo & known_below, "below-0", "C12/cmyk-wrapper/range/below-zero"),
+                   (lo & ~known_below, "below-0",
+                    f"C12/cmyk-wrapper/range/{fn}/below-zero-although-blended-rgb-within-1-minus-source-K")]
+        ctx.hist("cmyk_below_zero", f"{fn}:known-mechanism", int((lo & known_below).sum()))
+        ctx.hist("cmyk_below_zero", f"{fn}:partial-clause-applies", int((~known_below).sum()))
+    else:
+        checks.append((lo, "below-0", "C12/cmyk-wrapper/range/below-zero" if path == "cmyk" else None))
+    for mask, kind, sig in checks:
         if mask.any():
             i = int(np.argmax(mask))
-            sig = f"C12/range/{path}/{fn}/{kind}"
-            if path == "cmyk" and kind == "below-0":
-                sig = "C12/cmyk-wrapper/range/below-zero"
+            sig = sig or f"C12/range/{path}/{fn}/{kind}"
             ctx.fail(sig, f"{fn} ({path}) returns a value {kind.replace('-', ' ')} for arguments in [0,1]",
                      case_of(fn, path, a, b, i), out.reshape(out.shape[0], -1)[i].tolist() if out.ndim > 1 else float(out.reshape(-1)[i]),
                      "finite values in [0,1]")
@@ -597,7 +606,21 @@ def ns_cases(ctx, st, drv, tab, fn, path, cb, cs, label, corr=True):
                 ctx.disagree(f"{fn} ({path}): model != implementation ({label})",
                              dict(case_of(fn, path, cb, cs, i), impl=out[i].tolist(), model=model[i].tolist(), count=int(bad.sum())))
     # ---- search
-    check_range(ctx, st, fn, path, out, cb, cs)
+    known_below = None
+    if path == "cmyk":
+        # the clause of the range that holds (cmyk_range_partial): blended RGB within [0, 1 - Ks] => C, M, Y in [0,1].
+        # Blended RGB = the published formula on the code's own conversion (1 - C)(1 - K); next to a discontinuity of
+        # that formula, or within its tolerance of 1 - Ks, the case is left to the known mechanism.
+        rb = (1 - a64[:, :3]) * (1 - a64[:, 3:4])
+        rs = (1 - b64[:, :3]) * (1 - b64[:, 3:4])
+        with np.errstate(all="ignore"):
+            v = spec_ns(fn, rb, rs)
+            offd = off_discontinuity_ns(fn, rb, rs)
+        margin = TOL_SPEC_NS[fn] + 1e-5
+        known_below = ~(offd & np.isfinite(v).all(axis=1) & (v.max(axis=1) <= 1 - b64[:, 3] - margin))
+    check_range(ctx, st, fn, path, out, cb, cs, known_below)
+    if path == "cmyk":
+        check_k_rule(ctx, fn, cb, cs, out)
     if path == "rgb":
         sp = spec_ns(fn, a64, b64)
         ok = off_discontinuity_ns(fn, a64, b64)
@@ -613,12 +636,6 @@ def ns_cases(ctx, st, drv, tab, fn, path, cb, cs, label, corr=True):
                      case_of(fn, path, cb, cs, i), out[i].tolist(), sp[i].tolist())
     elif fn in ("hue", "saturation", "color", "luminosity"):
         sp = spec_ns_cmyk(fn, a64, b64)
-        kdev = np.abs(out[:, 3] - sp[:, 3])
-        if (kdev > TOL_CORR).any():
-            i = int(np.argmax(kdev))
-            ctx.fail("C12/cmyk-wrapper/K-taken-from-source",
-                     f"{fn} on CMYK returns the source's K; PDF 1.7 11.3.5.3 (and the comment above non_separable) say the backdrop's",
-                     case_of(fn, path, cb, cs, i), out[i].tolist(), sp[i].tolist())
         okc = off_discontinuity_ns(fn, 1 - a64[:, :3], 1 - b64[:, :3])
         dev = np.abs(out[:, :3] - sp[:, :3]).max(axis=1)
         viol = okc & ~(dev <= TOL_SPEC_NS[fn])
@@ -630,6 +647,95 @@ def ns_cases(ctx, st, drv, tab, fn, path, cb, cs, label, corr=True):
                      f"{fn} on CMYK: C, M, Y differ from the PDF 1.7 11.3.5.3 procedure by {dev[i]:.4g}",
                      case_of(fn, path, cb, cs, i), out[i].tolist(), sp[i].tolist())
     return out
+
+
+KTOL = 1e-7
+
+
+def check_k_rule(ctx, fn, cb, cs, out):
+    """Which K a non-separable mode carries on 4-channel input (search; no model involved). PDF 1.7 11.3.5.3:
+    the source's for Luminosity, the backdrop's for Hue, Saturation, Color. The code carries the source's for
+    all six (Props.C12.cmyk_k_rule): for hue / saturation / color that is the known finding, function by
+    function; for luminosity it is the published rule, so any other K is a failing input. Darker / Lighter
+    Color have no published CMYK rule: the K must be one of the two inputs'."""
+    kb, ks, ko = cb[:, 3].astype(np.float64), cs[:, 3].astype(np.float64), out[:, 3]
+    differ = np.abs(kb - ks) > KTOL
+    is_s = np.abs(ko - ks) <= KTOL
+    is_b = np.abs(ko - kb) <= KTOL
+    ctx.hist("cmyk_k_carried", f"{fn}:inputs-with-differing-K", int(differ.sum()))
+    ctx.hist("cmyk_k_carried", f"{fn}:source-K", int((differ & is_s).sum()))
+    ctx.hist("cmyk_k_carried", f"{fn}:backdrop-K", int((differ & is_b).sum()))
+
+    def report(mask, sig, what, want):
+        if mask.any():
+            i = int(np.argmax(mask))
+            exp = out[i].tolist()
+            exp[3] = float(want[i])
+            ctx.fail(sig, what, case_of(fn, "cmyk", cb, cs, i), out[i].tolist(), {"K": float(want[i]), "result_with_that_K": exp})
+
+    if fn == "luminosity":
+        report(differ & ~is_s & is_b, "C12/cmyk-wrapper/K/luminosity/carries-backdrop-K-instead-of-source-K",
+               "luminosity on CMYK returns the backdrop's K; PDF 1.7 11.3.5.3 prescribes the source's (and the code carried it)", ks)
+        report(~is_s & ~is_b, "C12/cmyk-wrapper/K/luminosity/neither-input-K",
+               "luminosity on CMYK returns a K that is neither the source's nor the backdrop's", ks)
+    elif fn in ("hue", "saturation", "color"):
+        report(differ & is_s & ~is_b, f"C12/cmyk-wrapper/K-taken-from-source/{fn}",
+               f"{fn} on CMYK returns the source's K; PDF 1.7 11.3.5.3 (and the comment above non_separable) say the backdrop's", kb)
+        report(~is_s & ~is_b, f"C12/cmyk-wrapper/K/{fn}/neither-input-K",
+               f"{fn} on CMYK returns a K that is neither the backdrop's nor the source's", kb)
+    else:
+        report(~is_s & ~is_b, f"C12/cmyk-wrapper/K/{fn}/neither-input-K",
+               f"{fn} on CMYK returns a K that is neither the backdrop's nor the source's", ks)
+
+
+def cmyk_k_stream():
+    """Seed-independent CMYK pairs whose two K differ (and a few equal ones): every ordered pair of K values from
+    {0, 1/255, 1/4, 1/2, 3/4, 254/255, 1} x a small set of C, M, Y colours (corners, greys, mixed)."""
+    ks = [0.0, 1 / 255, 0.25, 0.5, 0.75, 254 / 255, 1.0]
+    cols = [(0.0, 0.0, 0.0), (1.0, 1.0, 1.0), (0.5, 0.5, 0.5), (0.5, 0.25, 0.0), (0.0, 0.25, 0.75), (0.2, 0.6, 0.9), (1.0, 0.0, 0.5)]
+    cb, cs = [], []
+    for c1 in cols:
+        for c2 in cols:
+            for k1 in ks:
+                for k2 in ks:
+                    cb.append(c1 + (k1,))
+                    cs.append(c2 + (k2,))
+    return np.array(cb, dtype=np.float32), np.array(cs, dtype=np.float32)
+
+
+def ns_identities(ctx, tab, rng, n):
+    """luminosity(Cb, Cs) = SetLum(Cb, Lum(Cs)) = color(Cs, Cb) on 3-channel input (a consequence of the published
+    formulas; Props.C12.luminosity_is_color_swapped); on 4-channel input the two agree when the two K are equal
+    (luminosity_cmyk_eq_color_swapped_of_equal_k) - with differing K each carries its own source's (check_k_rule)."""
+    cb, cs = ns_inputs(rng, n, 3)
+    lb, ls = lattice_pairs(rng, n)
+    cb, cs = np.concatenate([cb, lb]), np.concatenate([cs, ls])
+    m = len(cb)
+    with np.errstate(all="ignore"):
+        a = np.asarray(tab["luminosity"](cb.reshape(m, 1, 3).copy(), cs.reshape(m, 1, 3).copy()), dtype=np.float64).reshape(m, -1)
+        b = np.asarray(tab["color"](cs.reshape(m, 1, 3).copy(), cb.reshape(m, 1, 3).copy()), dtype=np.float64).reshape(m, -1)
+    ctx.count(None, n=m)
+    ctx.hist("identities", "luminosity_is_color_swapped:rgb", m)
+    dev = np.abs(a - b).max(axis=1) if a.shape == b.shape else np.full(m, np.inf)
+    if (~(dev <= 2e-6)).any():
+        i = int(np.argmax(~(dev <= 2e-6)))
+        ctx.fail("C12/identity/luminosity_is_color_swapped/rgb", "luminosity(Cb, Cs) != color(Cs, Cb) on RGB input",
+                 case_of("luminosity", "rgb", cb, cs, i), a[i].tolist(), b[i].tolist())
+    qb, qs = cmyk_k_stream()
+    eq = qb[:, 3] == qs[:, 3]
+    qb, qs = qb[eq], qs[eq]
+    m = len(qb)
+    with np.errstate(all="ignore"):
+        a = np.asarray(tab["luminosity"](qb.reshape(m, 1, 4).copy(), qs.reshape(m, 1, 4).copy()), dtype=np.float64).reshape(m, -1)
+        b = np.asarray(tab["color"](qs.reshape(m, 1, 4).copy(), qb.reshape(m, 1, 4).copy()), dtype=np.float64).reshape(m, -1)
+    ctx.count(None, n=m)
+    ctx.hist("identities", "luminosity_is_color_swapped:cmyk-equal-K", m)
+    dev = np.abs(a - b).max(axis=1) if a.shape == b.shape else np.full(m, np.inf)
+    tol = 2e-6 + 4e-6 / np.maximum(1 - qs[:, 3].astype(np.float64), 1e-9)
+    if (~(dev <= tol)).any():
+        i = int(np.argmax(~(dev <= tol)))
+        ctx.fail("C12/identity/luminosity_is_color_swapped/cmyk-equal-K", "luminosity(Cb, Cs) != color(Cs, Cb) on CMYK input with equal K",
+                 case_of("luminosity", "cmyk", qb, qs, i), a[i].tolist(), b[i].tolist())
 
 
 def spec_tie_ns(ctx, drv, rng, n):
@@ -741,8 +847,11 @@ def run(ctx: core.Run):
         ns_cases(ctx, st, drv, tab, fn, "rgb", cb, cs, "lattice17-sample")
         cb, cs = ns_inputs(rng, n_rnd, 3)
         ns_cases(ctx, st, drv, tab, fn, "rgb", cb, cs, "random")
+        cb, cs = cmyk_k_stream()
+        ns_cases(ctx, st, drv, tab, fn, "cmyk", cb, cs, "differing-K-matrix")
         cb, cs = ns_inputs(rng, n_rnd, 4)
         ns_cases(ctx, st, drv, tab, fn, "cmyk", cb, cs, "random")
+    ns_identities(ctx, tab, rng, 2000 if quick else 30000)
     spec_tie_ns(ctx, drv, rng, 300)
     if quick:
         for fn in NONSEP:
@@ -772,7 +881,9 @@ def run(ctx: core.Run):
         "separable: every cell of the 8-bit grid rows listed (all 256 rows in the thorough tier, 64 rows x 256 columns in the "
         "quick tier incl. rows 0,1,63,64,127,128,254,255), the dyadic 65x65 grid (contains 0, 0.25, 0.5, 1 exactly), random float32 "
         "pairs incl. 0, 1, 0.5, 0.25 and their float32 neighbours, complementary and equal pairs; non-separable: sampled pairs of the "
-        "17^3 lattice, random / grey / tied / primary triples on the RGB and the CMYK path; search additionally over the whole "
+        "17^3 lattice, random / grey / tied / primary triples on the RGB and the CMYK path, and a seed-independent CMYK matrix "
+        "(7 colours x 7 colours x every ordered pair of K in {0, 1/255, 1/4, 1/2, 3/4, 254/255, 1}) on which the K carried, the partial "
+        "range clause and purity are evaluated; search additionally over the whole "
         "17^3 x 17^3 lattice (thorough). distinct = distinct (function, grid, row) or (function, path, batch) keys; every case "
         "is non-trivial (each is one evaluation of a blend function on the real code)."
     )
@@ -797,7 +908,13 @@ NOTES = [
     "(sq Cb)^2 = Cb, satisfiable at rational squares only) and the generally satisfiable form is soft_light_range_of_bounds "
     "(Cb <= sq Cb <= 1); soft_light_near_spec needs no hypothesis on sqrt (code and published formula use it in the same place)",
     "stated in DESIGN, FALSE on the code, not provable: <mode>_range and <mode>_near_spec on the CMYK path of the six non-separable "
-    "modes: cmyk_range_violated (witness), cmyk_range_partial, cmyk_k_is_source_k; three known findings C12/cmyk-wrapper/*",
+    "modes: cmyk_range_violated (witness), cmyk_range_partial, cmyk_k_is_source_k / cmyk_k_rule; known findings C12/cmyk-wrapper/* "
+    "(range below zero; C, M, Y not the PDF procedure; K of the source for hue, saturation, color - one signature per function)",
+    "CMYK path, the clauses that DO hold are searched on the real code: (a) which K is carried - the source's, function by function "
+    "(tied: non_separable_k_per_function / non_separable_decorated_exactly; for luminosity this is the published rule, so a luminosity "
+    "that carries another K is a failing input of its own signature); (b) cmyk_range_partial - C, M, Y may only fall below zero where "
+    "the blended RGB exceeds 1 - K of the source; (c) luminosity(Cb, Cs) = color(Cs, Cb) on RGB and on CMYK with equal K "
+    "(luminosity_is_color_swapped, luminosity_cmyk_eq_color_swapped_of_equal_k; luminosity_cmyk_ne_color_swapped shows it fails with differing K)",
     "hue/saturation: hueTol(1/65535) = 1.33e-3 is the proved worst case (Lipschitz constant 2(1+100/11) of the published SetLum); the "
     "largest deviation observed on the 17^3 x 17^3 lattice is about 1.4e-6",
     "purity (arguments unmodified) is checked by snapshots in the search; normal and dissolve return the source array itself "
